@@ -32,7 +32,6 @@ from __future__ import annotations
 
 import io
 import json
-import os
 import random
 import re
 import zlib
@@ -885,6 +884,10 @@ def judge(fmt, doc, text, tabs, tr=None):
         known = set(t for t, _ in vis) | set(tr["hidden"]) | set(tr["dontcare"])
         residue = TOK.sub(lambda m: " " if m.group(0) in known else m.group(0), residue)
         residue = residue.replace(URL, " ")
+        if base == "xlsx":
+            # placeholder of an empty header cell: pinned by the repository's own golden test (test_read_xlsx_2) and listed in the
+            # documented-behaviour table of DESIGN.md section 1 ("empty get_full_text header cells") - decoration, not judged
+            residue = re.sub(r"Unnamed: \d+", " ", residue)
         if base == "ppt":
             for lit in PPT_MASTER_LINES:      # prompt texts of the master placeholders: present in the source file, not judged
                 residue = residue.replace(lit, " ")
@@ -1108,9 +1111,9 @@ def embeds(small, big):
 
 
 def fingerprint_view(case):
-    """visible token classes are context labels only: B/H/C/L/K/S all count as one class in a fingerprint"""
+    """visible token classes are context labels only: B/H/C/L/K/S/I all count as one class in a fingerprint"""
     def go(x):
-        if F.is_token(x) and x[0] in "HCLKS":
+        if F.is_token(x) and x[0] in "HCLKSI":
             return "B" + x[1:]
         if isinstance(x, list):
             return [go(y) for y in x]
@@ -1220,5 +1223,11 @@ ASSUMPTIONS = [
     "odp / epub table text is looked up in iterate_tables() cells as well as in the text",
     "neighbouring text runs of one paragraph (boundary class none) may or may not be separated",
     "formulas (math) and image alt texts are not generated here (C19 / C14)",
-    "ppt: per documented `title + body + other` order the first heading of a slide is expected first",
+    "ppt: per documented `title + body + other` order the first heading of a slide is expected first; the prompt texts of the master "
+    "placeholders (present in every real .ppt) are in the source and are not judged by `invented`",
+    "xlsx: the `Unnamed: <n>` placeholder of an empty header cell is treated as decoration (pinned by the repository's golden test)",
+    "csv: the field delimiter counts as separation (documented: raw content is returned)",
+    "plain-text files shorter than 32 bytes that the charset detector mis-decodes are not judged (documented as unreliable)",
+    "text before and after an anchored text box belongs to one run of text; only the text inside the box is a paragraph of its own",
+    "html comments are generated as the HTML rendering of a comment (class M, must not leak); ins/del are not generated for HTML",
 ]
